@@ -17,6 +17,7 @@ TEMPLATES = {
     "ignall": dict(shapes=[[4, 2], [2, 2]], maxdim=2, merge=False, ignored=[0, 1]),    # blocks without factors
     "t4": dict(shapes=[[2, 3, 2, 2]], maxdim=3, merge=False, ignored=[]),              # order 4
     "m3p": dict(shapes=[[2, 2], [2, 2], [2, 2]], maxdim=2, merge=False, ignored=[]),   # three params
+    "v3p": dict(shapes=[[2], [2], [2]], maxdim=2, merge=False, ignored=[]),                    # three params, one 1-factor block each
     "rect": dict(shapes=[[5, 3]], maxdim=3, merge=False, ignored=[]),                  # uneven blocks (3,3),(2,3)
 }
 DYADIC_LR = [0.5, 0.25, 0.125, 0.0625, 0.03125]
